@@ -99,11 +99,15 @@ CLAIMS = {
             "ones are allowed names in strictly increasing order. Corollaries: no unallowed name is ever approved; a browser's sorted unique list of allowed names is approved. "
             "Tie: acrh suite (headers.Check and TrimOWS directly, elements around the length cut-off, 0-3 OWS bytes, 15/16/17 empties, split lines) and the ACRH decision bit of the serve suite.",
             '6/C14', 'C14_browser is proved for a single unpadded field line; tolerance of padded / split browser lists follows from C14 itself but is not yet stated as a separate theorem.'),
-    'C15': ('proof', 'Lean 4 theorems (partial: `*`/Authorization order, permutation-invariance of the violation multiset and of acceptance) + relational twins suite computed on the Go side',
-            "Theorems C15_star_auth (both orders of `*` and Authorization, with duplicates and case variants, both credential modes, give identical internal results), C15_errors_perm (the violations of a permuted Config are a permutation "
-            "of the original's) and C15_accept_perm (permuting any of the four lists preserves acceptance) (Props/C15.lean). The full statement C15_full (twins answer every request identically) is NOT proved yet; it rests on the `twins` suite, "
-            "which builds a twin by permuting/duplicating entries, re-casing header names, re-spelling normalisable methods and adding safelisted names, and compares the two Go middlewares' responses on derived requests in both debug modes.",
-            '6/C15', 'PARTIAL: identical behaviour of twins is tie-only (needs order-independence of the three set folds and C01 for the tree).'),
+    'C15': ('proof', 'Lean 4 theorem (twins build the same handler function: canonical sorted sets + order-independence of the three set folds + C01 for the tree) + relational twins suite computed on the Go side',
+            "Theorem C15_full (Props/C15.lean): two accepted configurations whose lists mean the same sets (relation Twin, Proofs/Twins.lean: same origin patterns, same effective methods after normalisation, "
+            "same effective header names after byte-lowercasing, `*` and Authorization listed in both or neither, equal scalars) satisfy Serve.serve i1 = Serve.serve i2 - the same function of debug flag, request and "
+            "pre-existing header map. Twin.of_same_members / respell_requestHeaders / respell_responseHeaders / respell_methods / add_safelisted_method / symm / trans show that reordering, duplication, re-casing, method re-spelling "
+            "and dropped entries yield twins; C15_perm is the permutation corollary; C15_star_auth, C15_errors_perm, C15_accept_perm as before. Proof ingredients: sorted sets are canonical (SortedSet.ext_members), "
+            "the folds of validateMethods / validateRequestHeaders / validateResponseHeaders are characterised by flags-as-disjunctions and member sets (Proofs/Folds.lean), the handler reads the tree only through IsEmpty and Contains, C01_config. "
+            "Tie: the `twins` suite builds a twin by permuting/duplicating entries, re-casing header names, re-spelling normalisable methods and adding safelisted names, and compares the two Go middlewares' responses on derived requests in both debug modes; "
+            "the validate and serve suites tie the model's folds and handler to the code.",
+            '6/C15', 'C15_full assumes both twins are accepted (C15_accept_perm covers acceptance for permutations only) and the C01 hypothesis that the IPv6 oracle accepts no `*`-leading literal.'),
     'C16': ('proof', 'Lean 4 theorem (value-provenance invariant of the preflight buffer) + differential tie',
             "Theorems C16 / C16_fail / C16_distinct / C16_accepted (Props/C16.lean): debug off, any preflight: status is the single regenerated failure status or the configured "
             "success status (distinct for accepted configurations); with the failure status nothing but Vary changes; every header value the middleware sets is `*`, `true`, "
